@@ -192,6 +192,9 @@ var c02PosRe = regexp.MustCompile(`^invalid syntax \(position=(\d+), reason=([^,
 func (c02) Exec(seed int64, i int, tier string) Record {
 	r := CaseRng(seed, "C02", i)
 	enum := c02Enum()
+	if i >= len(enum) && (i-len(enum))%200 == 77 {
+		return c02NestedCase(r)
+	}
 	var s, gen string
 	if i < len(enum) {
 		s, gen = enum[i], c02SectionOf(i)
@@ -303,5 +306,156 @@ func (c02) Exec(seed int64, i int, tier string) Record {
 	} else {
 		rec.Tags = append(rec.Tags, "trivial")
 	}
+	return rec
+}
+
+// ---------- class nested-call: a user function calls back into the library ----------
+//
+// One random case in 200. jsonpath.Retrieve(path, document, config) where a filter function (`look`)
+// and / or an aggregate function (`lookAll`) of the config itself calls jsonpath.Retrieve or
+// jsonpath.Parse (a lookup in another document, parsing a path stored in the data …) before
+// returning — `look` returns its argument, `lookAll` the number of its arguments. Retrieve must
+// return (within c02NestedLimit; it is run in a goroutine), with a result or a documented runtime
+// error, and agree with Parse + call under the same config. A call that does not return is reported
+// as a finding of class "hang"; the worker process is then given up (Record.Poison), because a lock
+// of the library is presumably still held.
+const c02NestedLimit = 3 * time.Second
+const c02NestedGrace = 3 * time.Second
+
+var c02NestedPaths = []string{"$.a.look()", "$[*].look()", "$..a.look()", "$.b[?(@.a.look() == 1)]", "$.b[?(@.a.look())].a", "$.*.lookAll()", "$..a.lookAll()",
+	"$[?(@.lookAll() > 1)]", "$.a.a.look().twice()", "$.b[*].a.look().lookAll()", "$[?(@.a == $[0].a.look())]", "$.b[?(@.b.look() || @.a.look() > 1)]", "$.a.b.lookAll().look()"}
+
+var c02InnerPaths = []string{"$", "$.a", "$..a", "$[*]", "$[?(@.a)]", "$[?(@.a == 1)].a", "$.a.twice()", "$.*.count()", "$.zz", "$[", "$.a.unknown()", "$[?(@.a == @.b)]", "$.a.look()"}
+
+func c02NestedCase(r *Rng) Record {
+	var text string
+	var doc interface{}
+	gen := "template"
+	if r.Chance(50) {
+		text = r.Pick(c02NestedPaths)
+		doc, _ = c02Decode(c02ProbeDocs[r.Intn(len(c02ProbeDocs))])
+	} else {
+		gen = "generated"
+		var p *Path
+		switch r.Weighted([]int{50, 50}) {
+		case 0:
+			doc, p = b7GenRecCase(r, 30)
+		default:
+			doc, p = GenCase(r, DefaultOpts())
+		}
+		nc, nr, nt := b7InjectFn(r, p, 70, "look")
+		if nc+nr+nt == 0 || r.Chance(25) {
+			if len(p.Fns) >= 2 {
+				p.Fns = p.Fns[:1]
+			}
+			p.Fns = append(p.Fns, Fn{Agg: true, Name: "lookAll"})
+		}
+		text = Render(p, r)
+	}
+	rec := Record{Text: text, Doc: JSONText(doc), Tags: []string{"gen:nested-call", "nested-call:" + gen}, Info: map[string]interface{}{}}
+	innerDoc, _ := c02Decode(c02ProbeDocs[r.Intn(len(c02ProbeDocs))])
+	inner := r.Pick(c02InnerPaths)
+	innerHow := r.Weighted([]int{40, 25, 20, 15}) // Retrieve without config / Retrieve with the registry / Parse / Retrieve with THIS config (bounded)
+	innerName := []string{"jsonpath.Retrieve(path, document)", "jsonpath.Retrieve(path, document, registry)", "jsonpath.Parse(path)", "jsonpath.Retrieve(path, document, the same config)"}[innerHow]
+	rec.Info["inner_call"] = innerName
+	rec.Info["inner_path"] = inner
+	rec.Tags = append(rec.Tags, "nested-call:inner="+[]string{"Retrieve", "Retrieve+registry", "Parse", "Retrieve+same-config"}[innerHow])
+	registry := Config(false, nil)
+	var cfg jsonpath.Config
+	calls, depth := 0, 0
+	callBack := func() {
+		calls++
+		if depth >= 2 || calls > 200 {
+			return
+		}
+		depth++
+		defer func() { depth--; recover() }()
+		switch innerHow {
+		case 0:
+			jsonpath.Retrieve(inner, innerDoc)
+		case 1:
+			jsonpath.Retrieve(inner, innerDoc, registry)
+		case 2:
+			if f, err := jsonpath.Parse(inner, registry); err == nil && f != nil {
+				f(innerDoc)
+			}
+		default:
+			jsonpath.Retrieve(inner, innerDoc, cfg)
+		}
+	}
+	cfg = Config(false, nil)
+	cfg.SetFilterFunction("look", func(v interface{}) (interface{}, error) { callBack(); return v, nil })
+	cfg.SetAggregateFunction("lookAll", func(vs []interface{}) (interface{}, error) { callBack(); return float64(len(vs)), nil })
+
+	// within: run the action in a goroutine; "" = returned in time, otherwise how long was waited
+	within := func(action func()) string {
+		done := make(chan struct{})
+		go func() { defer close(done); action() }()
+		select {
+		case <-done:
+			return ""
+		case <-time.After(c02NestedLimit):
+		}
+		select {
+		case <-done:
+			rec.Tags = append(rec.Tags, "nested-call:slow-but-returned")
+			return ""
+		case <-time.After(c02NestedGrace):
+		}
+		return fmt.Sprintf("did not return within %v (nor within another %v)", c02NestedLimit, c02NestedGrace)
+	}
+	var ro, co Outcome
+	if msg := within(func() { ro = c02Retrieve(text, doc, &cfg) }); msg != "" {
+		rec.Viol = fmt.Sprintf("Retrieve %s: a user function of the Config (filter function `look` / aggregate function `lookAll`) calls %s (inner path %q) while Retrieve(%q, …) evaluates the document [user functions were entered %d times]",
+			msg, innerName, inner, text, calls)
+		rec.Class = "hang"
+		rec.Poison = true
+		rec.Key = "nested-call/hang"
+		return rec
+	}
+	callsRetrieve := calls
+	var f Parsed
+	var po Outcome
+	if msg := within(func() {
+		f, po = SafeParse(text, &cfg)
+		if f != nil {
+			co = SafeCall(f, doc)
+		}
+	}); msg != "" {
+		rec.Viol = fmt.Sprintf("Parse + call %s: a function of the Config calls %s (inner path %q) while the parsed function of %q evaluates the document", msg, innerName, inner, text)
+		rec.Class = "hang"
+		rec.Poison = true
+		rec.Key = "nested-call/hang"
+		return rec
+	}
+	viol := func(class, format string, args ...interface{}) {
+		if rec.Viol == "" {
+			rec.Viol = fmt.Sprintf(format, args...) + fmt.Sprintf(" [input %q, inner call %s on %q]", text, innerName, inner)
+			rec.Class = class
+		}
+	}
+	switch {
+	case ro.ErrKind == "panic":
+		viol("retrieve-panic", "Retrieve panicked: %s", clip(ro.Panic, 600))
+	case f == nil:
+		if po.ErrKind == "panic" || po.NilNil || po.Both || !c02IsParseErr(po.ErrKind) {
+			viol("error-type", "Parse of a generated path: %s", clip(po.Detail(), 300))
+		} else {
+			viol("parse-reject", "generated path was rejected by Parse: %s", po.Msg)
+		}
+	default:
+		if msg := c02CheckCall(co, false); msg != "" {
+			viol("call", "calling the parsed function: %s", msg)
+		}
+		if ro.OK != co.OK || ro.ErrKind != co.ErrKind || ro.Msg != co.Msg || (ro.OK && ValsSexp(ro.Vals) != ValsSexp(co.Vals)) || ro.Both {
+			viol("retrieve-differs", "Parse+call gave %s but Retrieve gave %s", clip(co.Detail(), 300), clip(ro.Detail(), 300))
+		}
+	}
+	rec.Info["user_function_calls"] = callsRetrieve
+	if callsRetrieve > 0 {
+		rec.Tags = append(rec.Tags, "nested-call:function-called")
+		rec.Key = "nested-call/" + c02Skeleton(text, 16) + "/" + fmt.Sprint(innerHow)
+	}
+	rec.Tags = append(rec.Tags, "nested-call:outcome="+pick(ro.OK, "ok", ro.ErrKind).(string))
 	return rec
 }
